@@ -56,6 +56,9 @@ Inductive kind :=
 | KI      (* internal reference owned by a call in progress *)
 | KBX     (* a call in progress that borrows an external reference owned by someone else (the application) *)
 | KBI     (* a call in progress that borrows an internal reference owned by someone else *)
+| KBE     (* a call in progress that uses the group under an outstanding enter (the group's own +1 taken by that enter
+             keeps it alive): the idiom of calling into the group from a dispatch_group_async block after the last
+             dispatch_release *)
 | KE      (* a completed dispatch_group_enter not yet consumed by a leave *)
 | KQ      (* internal reference on the notification queue (one per pending notification) *)
 | KPE     (* enter made the group non-empty, its _dispatch_retain not yet done (counts as an enter too) *)
@@ -63,11 +66,12 @@ Inductive kind :=
 | KD      (* duty to deliver the current batch: between the list's retain and setting HAS_NOTIFS / the snapshot *)
 | KXD     (* xref reached -1, _os_object_xref_dispose not yet past its barrier *)
 | KDP     (* ref reached -1, _os_object_dispose / _dispatch_dispose not yet done *)
-| KB.     (* derived: borrows not matched by a pending retain = KBX + KBI - KPE - KPN (pointwise >= 0:
-             whoever owes a retain is inside a call that borrowed a reference) *)
-Definition all_kinds := [KX; KI; KBX; KBI; KE; KQ; KPE; KPN; KD; KXD; KDP; KB].
+| KB      (* derived: KBX + KBI - KPE (pointwise >= 0: the enter that owes the group's retain made the group non-empty,
+             so it cannot have been made under an outstanding enter: it borrowed an external or internal reference) *)
+| KB2.    (* derived: KBX + KBI + KBE - KPN (pointwise >= 0: the notify that owes the list's retain borrowed something) *)
+Definition all_kinds := [KX; KI; KBX; KBI; KBE; KE; KQ; KPE; KPN; KD; KXD; KDP; KB; KB2].
 
-Inductive bsrc := BX | BI | BN.                (* the kind of reference a call borrows for its duration (BN: none) *)
+Inductive bsrc := BX | BI | BE | BN.                (* the kind of reference a call borrows for its duration (BN: none) *)
 Inductive kont := KApi (b : bsrc) | KImpl.     (* API call (ends with DVU_RET) or library-internal leave on a worker *)
 
 Inductive pc :=
@@ -100,11 +104,11 @@ Inductive pc :=
 | PNfCas (b : bsrc) (old new : Z).         (* the loop tries old -> new = old | HAS_NOTIFS *)
 
 Definition hb (k : kind) (b : bsrc) : Z :=
-  match k, b with KBX, BX => 1 | KBI, BI => 1 | _, _ => 0 end.
+  match k, b with KBX, BX => 1 | KBI, BI => 1 | KBE, BE => 1 | _, _ => 0 end.
 Definition hk (k : kind) (c : kont) : Z := match c with KApi b => hb k b | KImpl => 0 end.
 Definition one (k k' : kind) : Z :=
   match k, k' with
-  | KX, KX | KI, KI | KBX, KBX | KBI, KBI | KE, KE | KQ, KQ | KPE, KPE | KPN, KPN | KD, KD | KXD, KXD | KDP, KDP | KB, KB => 1
+  | KX, KX | KI, KI | KBX, KBX | KBI, KBI | KBE, KBE | KB2, KB2 | KE, KE | KQ, KQ | KPE, KPE | KPN, KPN | KD, KD | KXD, KXD | KDP, KDP | KB, KB => 1
   | _, _ => 0
   end.
 
@@ -138,7 +142,8 @@ Definition held0 (k : kind) (p : pc) (g : Z) : Z :=
   end.
 Definition held (k : kind) (p : pc) (g : Z) : Z :=
   match k with
-  | KB => held0 KBX p g + held0 KBI p g - held0 KPE p g - held0 KPN p g
+  | KB => held0 KBX p g + held0 KBI p g - held0 KPE p g
+  | KB2 => held0 KBX p g + held0 KBI p g + held0 KBE p g - held0 KPN p g
   | _ => held0 k p g
   end.
 
@@ -177,11 +182,11 @@ Definition weak_body (b : bsrc) (old : Z) : option pc :=
   | _ => None
   end.
 
-Definition borrow_of (e : event) : bsrc := if ea e / 100 =? 0 then BX else BI.
+Definition borrow_of (e : event) : bsrc := if ea e / 100 =? 0 then BX else if ea e / 100 =? 1 then BI else BE.
 Definition call_pc (e : event) : option pc :=
   let op := ea e mod 100 in
   let b := borrow_of e in
-  if (ea e <? 0) || (200 <=? ea e) then None
+  if (ea e <? 0) || (300 <=? ea e) then None
   else if op =? OP_RETAIN then (if ea e / 100 =? 0 then Some PRetain else None)
   else if op =? OP_RELEASE then (if ea e / 100 =? 0 then Some PRelease else None)
   else if op =? OP_LEAVE then (if ea e / 100 =? 0 then Some (PLeave (KApi BN)) else None)
@@ -377,11 +382,16 @@ Definition effect1 (r : greg -> Z) (g : Z) (p : pc) (e : event) : option (list (
      (someone owns it and keeps it for the duration of the call: see the last two lines); it does not take it;
    - a call that RELEASES takes the references it releases out of the pool (it owns them from then on); the same
      for a leave and its enter;
+   - a call may also use the group under an OUTSTANDING ENTER (borrow BE: an enter that has returned and whose leave has
+     not begun: the group's own +1 keeps it alive), e.g. from inside a dispatch_group_async block after the last release;
    - while calls in progress borrow a reference of a level (pv KBX / pv KBI > 0), a release of that level must leave
-     at least one reference of that level in the pool. *)
+     at least one reference of that level in the pool; while calls use the group under outstanding enters
+     (pv KBE > 0), a leave must leave at least one outstanding enter. *)
 Definition call_guard (r : greg -> Z) (pv : kind -> Z) (p' : pc) : bool :=
   (held KX p' 0 <=? r XPOOL) && (held KI p' 0 <=? r IPOOL) && (held KE p' 0 <=? r EPOOL) &&
   (held KBX p' 0 <=? r XPOOL - held KX p' 0) && (held KBI p' 0 <=? r IPOOL - held KI p' 0) &&
+  (held KBE p' 0 <=? r EPOOL - held KE p' 0) &&
+  ((held KE p' 0 =? 0) || (1 <=? r EPOOL - held KE p' 0) || (pv KBE =? 0)) &&
   ((held KX p' 0 =? 0) || (1 <=? r XPOOL - held KX p' 0) || (pv KBX =? 0)) &&
   ((held KI p' 0 =? 0) || (1 <=? r IPOOL - held KI p' 0) || (pv KBI =? 0)).
 
@@ -403,7 +413,7 @@ Definition effect (r : greg -> Z) (pv : kind -> Z) (g : Z) (p : pc) (e : event) 
         end
       else     (* library-internal leave: consumes an enter *)
         match effect1 r g (PLeave KImpl) e with
-        | Some (ups, g') => guard (1 <=? r EPOOL) ((EPOOL, r EPOOL - 1) :: ups, g')
+        | Some (ups, g') => guard ((1 <=? r EPOOL) && ((2 <=? r EPOOL) || (pv KBE =? 0))) ((EPOOL, r EPOOL - 1) :: ups, g')
         | None => None
         end
   | PRet _ _ _ _ =>
